@@ -43,6 +43,9 @@ func NewGenerator(env *Zlisp) *Generator {
 func (gen *Generator) NewSubGenerator() *Generator {
 	subgen := NewGenerator(gen.env)
 	subgen.knownFunctions = gen.knownFunctions
+	// the nesting guard of Generate counts through sub-generators too
+	// (and, or, cond, for ... compile their parts with one)
+	subgen.depth = gen.depth
 	return subgen
 }
 
